@@ -73,15 +73,18 @@ pub struct Profile {
     pub adapters: bool,
     pub cancel: bool,
     pub exits: bool,
+    pub force_cancelable: Option<bool>,
 }
 
 pub fn profile(name: &str) -> Profile {
     match name {
-        "overload" => Profile { name: "overload", max_threads: 2, small_rings: true, small_caps: true, len_lo: 30, len_hi: 90, w_collector: 5, adapters: false, cancel: true, exits: true },
-        "adapters" => Profile { name: "adapters", max_threads: 2, small_rings: false, small_caps: false, len_lo: 30, len_hi: 80, w_collector: 6, adapters: true, cancel: true, exits: false },
-        "local" => Profile { name: "local", max_threads: 1, small_rings: false, small_caps: false, len_lo: 30, len_hi: 100, w_collector: 2, adapters: false, cancel: false, exits: false },
-        "exit" => Profile { name: "exit", max_threads: 3, small_rings: false, small_caps: false, len_lo: 15, len_hi: 50, w_collector: 10, adapters: false, cancel: false, exits: true },
-        _ => Profile { name: "mixed", max_threads: 3, small_rings: false, small_caps: false, len_lo: 20, len_hi: 80, w_collector: 6, adapters: true, cancel: true, exits: true },
+        "overload" => Profile { name: "overload", max_threads: 2, small_rings: true, small_caps: true, len_lo: 30, len_hi: 90, w_collector: 5, adapters: false, cancel: true, exits: true, force_cancelable: None },
+        "adapters" => Profile { name: "adapters", max_threads: 2, small_rings: false, small_caps: false, len_lo: 30, len_hi: 80, w_collector: 6, adapters: true, cancel: true, exits: false, force_cancelable: None },
+        "local" => Profile { name: "local", max_threads: 1, small_rings: false, small_caps: false, len_lo: 30, len_hi: 100, w_collector: 2, adapters: false, cancel: false, exits: false, force_cancelable: None },
+        "default" => Profile { name: "default", max_threads: 3, small_rings: false, small_caps: false, len_lo: 20, len_hi: 80, w_collector: 7, adapters: true, cancel: true, exits: true, force_cancelable: Some(false) },
+        "cancelable" => Profile { name: "cancelable", max_threads: 3, small_rings: false, small_caps: false, len_lo: 20, len_hi: 80, w_collector: 7, adapters: true, cancel: true, exits: true, force_cancelable: Some(true) },
+        "exit" => Profile { name: "exit", max_threads: 3, small_rings: false, small_caps: false, len_lo: 15, len_hi: 50, w_collector: 10, adapters: false, cancel: false, exits: true, force_cancelable: None },
+        _ => Profile { name: "mixed", max_threads: 3, small_rings: false, small_caps: false, len_lo: 20, len_hi: 80, w_collector: 6, adapters: true, cancel: true, exits: true, force_cancelable: None },
     }
 }
 
@@ -657,7 +660,7 @@ impl<'a> Gen<'a> {
         let mut cands: Vec<(u32, Act)> = vec![];
         if !self.installed {
             if self.rng.chance(4, 5) || self.nactions > 6 {
-                let c = self.rng.chance(1, 2);
+                let c = match self.prof.force_cancelable { Some(b) => b, None => self.rng.chance(1, 2) };
                 cands.push((30, Act::Install(c)));
             }
         }
